@@ -242,6 +242,40 @@ def known_findings():
     return json.loads(p.read_text()) if p.exists() else {"findings": [], "fixed": []}
 
 
+def run_chunks(binary, cases, k=12, timeout=180, cwd=None, max_culprits=4):
+    """Run a harness binary (one answer line per case line, flushed case by case) over `cases`, split over k processes.
+    A process that crashes or does not finish within `timeout` seconds has answered a prefix of its chunk: the first
+    unanswered case is the culprit (hang / deadlock / abort on that input); it is recorded and the rest of the chunk is run
+    again. Returns (impl: case -> answer line, culprits: [(case, why)], fatal: str | None)."""
+    import subprocess
+    from concurrent.futures import ThreadPoolExecutor
+    def run_one(ch):
+        impl, culprits, fatal = {}, [], None
+        rest = list(ch)
+        while rest:
+            try:
+                p = subprocess.run([str(TARGET / binary)], input="\n".join(rest) + "\n", capture_output=True, text=True, timeout=timeout, cwd=cwd)
+                outs, rc, err, timed = p.stdout.splitlines(), p.returncode, p.stderr[-400:], False
+            except subprocess.TimeoutExpired as e:
+                o = e.stdout or b""
+                outs = (o.decode("utf-8", "replace") if isinstance(o, bytes) else o).splitlines()
+                rc, err, timed = -9, "", True
+            for c, l in zip(rest, outs): impl[c] = l
+            if len(outs) >= len(rest) and rc == 0: break
+            if len(outs) >= len(rest): fatal = f"{binary} exited with {rc} after answering every case: {err}"; break
+            bad = rest[len(outs)]
+            culprits.append((bad, (f"no answer within {timeout} s (hang / deadlock)" if timed else f"the harness process died (exit {rc}) {err.strip()[-200:]}")))
+            rest = rest[len(outs) + 1:]
+            if len(culprits) >= max_culprits: fatal = f"{binary}: more than {max_culprits} cases hang or crash in one chunk"; break
+        return impl, culprits, fatal
+    chunks = [cases[i::k] for i in range(k)]
+    with ThreadPoolExecutor(k) as ex: res = list(ex.map(run_one, chunks))
+    impl, culprits, fatal = {}, [], None
+    for i, c, f in res:
+        impl.update(i); culprits += c; fatal = fatal or f
+    return impl, culprits, fatal
+
+
 def corpus(stream):
     """minimised / first failing cases of past detections (seeded changes, reverted repairs), one case line per line in
     /verif/corpus/<stream>.txt ('#' starts a comment); they run first in the stream, under ids cp0, cp1, ..."""
